@@ -9,7 +9,7 @@ path; (5) names reach the hash table only through hash_string (three hash types 
 """
 import re
 
-from .. import cmpeval, hirq, mirg, symx
+from .. import cmpeval, hirq, mirg, rules, symx
 from ..rules import norm, ncallee
 from ..symx import render
 
@@ -85,6 +85,155 @@ def size_decisions(fn):
     return out
 
 
+def crc_flag_implies_checksum_rule(ctx, mpq, pid):
+    """the builder sets FLAG_SECTOR_CRC on a block entry exactly when it writes the checksum(s) behind the data: on every path
+    from a `flags |= FLAG_SECTOR_CRC` to a success return, a checksum is computed and written (or the flag is cleared again).
+    Paths are followed with the guard that led to the set held fixed (`if self.generate_crcs` tested twice takes the same arm)."""
+    R = ctx.rule("%s.crc-flag-implies-checksum-written" % pid, "in write_file every path from `flags |= FLAG_SECTOR_CRC` to a success exit passes an adler32 computation or clears the flag again", floor=2)
+    f = next((x for x in mpq.fn_list if x.mir and x.kind != "Closure" and norm(x.path) == M + "builder::ArchiveBuilder::write_file"), None)
+    if f is None:
+        ctx.bad(R, "write_file|missing", "-", "function not found", "anchor gone")
+        return
+    ctx.saw_fn(f)
+    consts = {k: v.get("v") for k, v in mpq.consts().items()}
+    crc = consts.get(M + "tables::block::BlockEntry::FLAG_SECTOR_CRC", 0x04000000)
+    blocks = f.mir["blocks"]
+    cfg = mirg.Cfg(f)
+    du = mirg.DefUse(f)
+    sets, clears, sums = [], set(), set()
+    for i, b in enumerate(blocks):
+        for st in b["s"]:
+            if st[0] == "=" and st[2][0] == "bin" and st[2][1] == "BitOr" and crc in (mirg.op_int(st[2][2]), mirg.op_int(st[2][3])):
+                sets.append((i, st[3]))
+            if st[0] == "=" and st[2][0] == "bin" and st[2][1] == "BitAnd" and any((mirg.op_int(o) is not None and (mirg.op_int(o) & 0xFFFFFFFF) == (~crc & 0xFFFFFFFF)) for o in (st[2][2], st[2][3])):
+                clears.add(i)
+        t = b["t"]
+        if t["k"] == "call" and re.search(r"adler32|crc32|checksum", (mirg.callee(t) or "").lower()):
+            sums.add(i)
+    oks = {bb for bb, kind, _p in rules.ret_assignments(f) if kind in ("ok", "copy", "other", "call")}
+
+    def guard_place(bb):
+        """(place, value) of the nearest dominating switch on a plain field read that decides whether bb is reached"""
+        best = None
+        for i, b in enumerate(blocks):
+            t = b["t"]
+            if t["k"] != "switch" or not cfg.dominates(i, bb) or i == bb:
+                continue
+            dl = mirg.op_local(t["d"])
+            for _b, k_, p_ in du.defs.get(dl, []):
+                if k_ == "assign" and p_[2][0] == "use" and p_[2][1][0] in ("c", "m") and mirg.pproj(p_[2][1][1]):
+                    place = (mirg.plocal(p_[2][1][1]), tuple(x for x in mirg.pproj(p_[2][1][1]) if isinstance(x, int)))
+                    # which edge leads to bb?
+                    for v_, tgt in t["ts"]:
+                        if tgt == bb or cfg.dominates(tgt, bb):
+                            best = (place, ("val", v_))
+                    if t.get("o") is not None and (t["o"] == bb or cfg.dominates(t["o"], bb)):
+                        best = (place, ("other", tuple(v_ for v_, _ in t["ts"])))
+        return best
+    for bb, ln in sets:
+        g = guard_place(bb)
+        # reachability from bb avoiding checksum / clear blocks, holding the guard fixed
+        seen, stack, hit = set(), [bb], None
+        while stack and hit is None:
+            x = stack.pop()
+            if x in seen:
+                continue
+            seen.add(x)
+            if x != bb and (x in sums or x in clears):
+                continue
+            if x in oks and x != bb:
+                hit = x
+                break
+            t = blocks[x]["t"]
+            nxt = list(cfg.succ[x])
+            # a loop whose body computes the checksum is taken to run at least once (a multi-sector file has >= 2 sectors): from its
+            # header only the edge into the body is followed
+            if t["k"] == "switch" and len(nxt) >= 2:
+                into_body = [n_ for n_ in nxt if any(s_ in cfg.reachable(n_, avoid={x}) for s_ in sums) and x in cfg.reachable(n_)]
+                if into_body and len(into_body) < len(nxt):
+                    nxt = into_body
+            if g is not None and t["k"] == "switch":
+                dl = mirg.op_local(t["d"])
+                same = False
+                for _b, k_, p_ in du.defs.get(dl, []):
+                    if k_ == "assign" and p_[2][0] == "use" and p_[2][1][0] in ("c", "m") and mirg.pproj(p_[2][1][1]) and (mirg.plocal(p_[2][1][1]), tuple(q for q in mirg.pproj(p_[2][1][1]) if isinstance(q, int))) == g[0]:
+                        same = True
+                if same:
+                    if g[1][0] == "val":
+                        nxt = [tg for v_, tg in t["ts"] if v_ == g[1][1]] or nxt
+                    else:
+                        nxt = [t["o"]] if t.get("o") is not None else nxt
+            stack.extend(nxt)
+        if hit is None:
+            ctx.ok(R, {"flag_set_line": ln, "guard": "held fixed" if g else "none"})
+        else:
+            ctx.bad(R, "write_file|crc-flag-without-checksum|%d" % sets.index((bb, ln)), "%s:%d" % (f.file, ln), "after FLAG_SECTOR_CRC is set at line %d a success exit (bb%d) is reachable without computing a checksum or clearing the flag" % (ln, hit),
+                    "the entry advertises a checksum that was never written: the reader takes the next item's first bytes as the checksum and rejects an intact file")
+    if not sets:
+        ctx.bad(R, "write_file|no-crc-flag", f.where, "FLAG_SECTOR_CRC is never set", "shape changed")
+
+
+def decision_bound_rule(ctx, mpq, pid):
+    """(shared by C01 and C02) where a reader decides `stored < X => decompress`, X is the size it decompresses to in that arm"""
+    fns = {norm(f.path): f for f in mpq.fn_list if f.kind != "Closure" and f.hir}
+    # 1a. the quantity the stored size is compared with is the size the data is then decompressed to
+    R_tgt = ctx.rule("%s.decision-bound-is-decompression-target" % pid, "where a reader decides `stored < X ⇒ decompress`, X is the expected size it passes to the decompressor in that arm", floor=2)
+    for path in ("archive::Archive::read_file", "archive::Archive::read_sectored_file", "archive::Archive::read_file_by_indices", "archive::Archive::read_patch_file_raw"):
+        f = fns.get(M + path)
+        if f is None:
+            continue
+        inl = _c03_inliner(f.hir["body"])
+        for n, tt, st, og, dthen, delse in size_decisions(f):
+            arm = n["then"] if dthen else (n.get("else") if delse else None)
+            if arm is None:
+                continue
+            targets = set()
+            for c in hirq.calls(arm):
+                if re.search(r"::decompress(_secure)?$|compression::decompress", c.get("fn") or "") and len(c.get("args") or []) >= 3:
+                    a = hirq.strip(c["args"][-1])
+                    while a.get("k") == "cast":
+                        a = hirq.strip(a["e"])
+                    targets.add(hirq.render(a))
+            if not targets:
+                continue
+            ogn = re.sub(r"^\((.*) as _\)$", r"\1", og)
+            key = "%s|bound-vs-target|%s" % (path.split("::")[-1], st[:24])
+            if ogn in targets or og in targets:
+                ctx.ok(R_tgt, {"fn": path, "bound": og, "decompress_target": sorted(targets)})
+            else:
+                ctx.bad(R_tgt, key, "%s:%d" % (f.file, n["ln"]), "stored size `%s` is compared with `%s`, but the arm decompresses to `%s`" % (st, og, ", ".join(sorted(targets))),
+                        "whenever the two differ (a short final sector, a truncated unit) a block stored raw is handed to the decompressor or a compressed one is returned verbatim")
+
+
+def key_from_final_flags_rule(ctx, mpq, pid):
+    """(shared by C01 and C02) no FIX_KEY bit is OR-ed into the flags after the key was derived from them"""
+    fns = {norm(f.path): f for f in mpq.fn_list if f.kind != "Closure" and f.hir}
+    consts = {k: v.get("v") for k, v in mpq.consts().items()}
+    # 1c. flags used for key derivation == flags stored: no FIX_KEY bit may be OR-ed in after the key was derived
+    R_kf = ctx.rule("%s.key-derived-from-final-flags" % pid, "in write_file no `flags |= FLAG_FIX_KEY` is reachable after a calculate_file_key(.., flags) call", floor=2)
+    wfile = fns.get(M + "builder::ArchiveBuilder::write_file")
+    if wfile is None:
+        ctx.bad(R_kf, "write_file|missing", "-", "function not found", "anchor gone")
+    else:
+        ctx.saw_fn(wfile)
+        cfg = mirg.Cfg(wfile)
+        fix = consts.get(M + "tables::block::BlockEntry::FLAG_FIX_KEY", 0x20000)
+        sets = []      # (bb, line) of `x = BitOr(x, FIX_KEY)`
+        for i, b in enumerate(wfile.mir["blocks"]):
+            for stt in b["s"]:
+                if stt[0] == "=" and stt[2][0] == "bin" and stt[2][1] == "BitOr" and (mirg.op_int(stt[2][2]) == fix or mirg.op_int(stt[2][3]) == fix):
+                    sets.append((i, stt[3]))
+        for bb, t in mirg.iter_calls(wfile):
+            if (ncallee(t) or "").endswith("ArchiveBuilder::calculate_file_key"):
+                after = cfg.reachable(t["t"]) if t.get("t") is not None else set()
+                late = [(b_, ln_) for b_, ln_ in sets if b_ in after and not cfg.dominates(b_, bb)]
+                if late:
+                    ctx.bad(R_kf, "write_file|fix-key-after-derivation", "%s:%d" % (wfile.file, t["ln"]), "FLAG_FIX_KEY is OR-ed into the flags at line %d, after the key was derived at line %d" % (late[0][1], t["ln"]),
+                            "the file is encrypted with the unadjusted key but stored with FIX_KEY set: readers derive the adjusted key and return garbage")
+                else:
+                    ctx.ok(R_kf, {"call_line": t["ln"], "fix_key_sets_before": len([1 for b_, _ in sets if cfg.dominates(b_, bb) or b_ == bb])})
+
+
 def run(ctx):
     prog = ctx.prog
     mpq = prog.crate("wow_mpq")
@@ -114,33 +263,7 @@ def run(ctx):
                 ctx.bad(R_thr, key, where, "decision `%s` has table {lt:%s, eq:%s, gt:%s} over (stored=%s, original=%s); decompress in %s arm" % (
                     hirq.render(n["c"])[:80], tt["lt"], tt["eq"], tt["gt"], st, og, "then" if dthen else "else"),
                         "a block stored raw because it did not shrink (stored == original) is handed to the decompressor, or a compressed one is returned verbatim")
-    # 1a. the quantity the stored size is compared with is the size the data is then decompressed to
-    R_tgt = ctx.rule("C01.decision-bound-is-decompression-target", "where a reader decides `stored < X ⇒ decompress`, X is the expected size it passes to the decompressor in that arm", floor=2)
-    for path in ("archive::Archive::read_file", "archive::Archive::read_sectored_file", "archive::Archive::read_file_by_indices", "archive::Archive::read_patch_file_raw"):
-        f = fns.get(M + path)
-        if f is None:
-            continue
-        inl = _c03_inliner(f.hir["body"])
-        for n, tt, st, og, dthen, delse in size_decisions(f):
-            arm = n["then"] if dthen else (n.get("else") if delse else None)
-            if arm is None:
-                continue
-            targets = set()
-            for c in hirq.calls(arm):
-                if re.search(r"::decompress(_secure)?$|compression::decompress", c.get("fn") or "") and len(c.get("args") or []) >= 3:
-                    a = hirq.strip(c["args"][-1])
-                    while a.get("k") == "cast":
-                        a = hirq.strip(a["e"])
-                    targets.add(hirq.render(a))
-            if not targets:
-                continue
-            ogn = re.sub(r"^\((.*) as _\)$", r"\1", og)
-            key = "%s|bound-vs-target|%s" % (path.split("::")[-1], st[:24])
-            if ogn in targets or og in targets:
-                ctx.ok(R_tgt, {"fn": path, "bound": og, "decompress_target": sorted(targets)})
-            else:
-                ctx.bad(R_tgt, key, "%s:%d" % (f.file, n["ln"]), "stored size `%s` is compared with `%s`, but the arm decompresses to `%s`" % (st, og, ", ".join(sorted(targets))),
-                        "whenever the two differ (a short final sector, a truncated unit) a block stored raw is handed to the decompressor or a compressed one is returned verbatim")
+    decision_bound_rule(ctx, mpq, "C01")
 
     # 1b'. number of sectors: every site computes ceil(size / sector_size) — decided over a grid of (size, sector_size)
     R_cnt = ctx.rule("C01.sector-count-is-ceil-division", "the builder and every reader compute the sector count of a file as ceil(size / sector_size)", floor=3)
@@ -224,29 +347,12 @@ def run(ctx):
                         ctx.bad(R_thr, "compress|store-raw-guard", "%s:%d" % (comp.file, n["ln"]), "writer-side guard `%s` has table %s (raw arm then=%s)" % (hirq.render(d), tt, raw_then),
                                 "a block whose stored form is as long as the original is emitted compressed; every reader treats equal sizes as raw and returns the compressed stream as the file's content")
 
-    # 1c. flags used for key derivation == flags stored: no FIX_KEY bit may be OR-ed in after the key was derived
-    R_kf = ctx.rule("C01.key-derived-from-final-flags", "in write_file no `flags |= FLAG_FIX_KEY` is reachable after a calculate_file_key(.., flags) call", floor=2)
-    wfile = fns.get(M + "builder::ArchiveBuilder::write_file")
-    if wfile is None:
-        ctx.bad(R_kf, "write_file|missing", "-", "function not found", "anchor gone")
-    else:
-        ctx.saw_fn(wfile)
-        cfg = mirg.Cfg(wfile)
-        fix = consts.get(M + "tables::block::BlockEntry::FLAG_FIX_KEY", 0x20000)
-        sets = []      # (bb, line) of `x = BitOr(x, FIX_KEY)`
-        for i, b in enumerate(wfile.mir["blocks"]):
-            for stt in b["s"]:
-                if stt[0] == "=" and stt[2][0] == "bin" and stt[2][1] == "BitOr" and (mirg.op_int(stt[2][2]) == fix or mirg.op_int(stt[2][3]) == fix):
-                    sets.append((i, stt[3]))
-        for bb, t in mirg.iter_calls(wfile):
-            if (ncallee(t) or "").endswith("ArchiveBuilder::calculate_file_key"):
-                after = cfg.reachable(t["t"]) if t.get("t") is not None else set()
-                late = [(b_, ln_) for b_, ln_ in sets if b_ in after and not cfg.dominates(b_, bb)]
-                if late:
-                    ctx.bad(R_kf, "write_file|fix-key-after-derivation", "%s:%d" % (wfile.file, t["ln"]), "FLAG_FIX_KEY is OR-ed into the flags at line %d, after the key was derived at line %d" % (late[0][1], t["ln"]),
-                            "the file is encrypted with the unadjusted key but stored with FIX_KEY set: readers derive the adjusted key and return garbage")
-                else:
-                    ctx.ok(R_kf, {"call_line": t["ln"], "fix_key_sets_before": len([1 for b_, _ in sets if cfg.dominates(b_, bb) or b_ == bb])})
+    key_from_final_flags_rule(ctx, mpq, "C01")
+    crc_flag_implies_checksum_rule(ctx, mpq, "C01")
+
+    # the codecs are part of the build -> open round trip: a block the sparse decoder over-fills is a file that does not read back
+    from .c03 import sparse_decoder_clamp_rule
+    sparse_decoder_clamp_rule(ctx, mpq, "C01")
 
     # 2. probe loops
     probes = ["tables::hash::HashTable::find_file", "builder::ArchiveBuilder::add_to_hash_table",
